@@ -36,6 +36,7 @@ PROP = dict(
         "MM.C21.C21_holds",
         "MM.C21.C21_ws",
         "MM.C21.C21_ws_gate",
+        "MM.C21.C21_ws_any_gate",
         "MM.C21.C21_no_usable_user",
         "MM.C21.C21_strict_refuted",
     ],
@@ -44,7 +45,7 @@ PROP = dict(
          "user lists: empty, only unusable entries, plaintext, bcrypt (cost 4, real hashes), both, mixed, duplicate names, junk hash, empty password/name; "
          "streams: method offers {0},{2},{0,2},{2,0},{1,0,2},{},{1} x skipped / malformed / wrong / right credentials x CONNECT/UDP/ICMP/BIND, truncations; "
          "op w = HTTP Basic gate of the WebSocket listener with Agent.buildSOCKS5CredentialStore; op ws = the real WebSocket listener (Server.StartWebSocket, plaintext on loopback) and a real nhooyr client "
-         "(socks5 subprotocol, Basic header, SOCKS5 stream cut into several binary frames, server frames collected), gate x SOCKS5 credentials; "
+         "(socks5 subprotocol, Basic header, SOCKS5 stream cut into several binary frames, server frames collected), gate x SOCKS5 credentials; listener configuration: HTTP store {none, the agent's, another user list} x Authorization {absent, right, wrong password, other user, malformed} x RFC 1929 {right, wrong, empty}; "
          "bcrypt key-length classes on all three paths: stored passwords of 71/72 bytes and 'ab', presented 70/71/72/73/200 bytes sharing the prefix and the NUL forms; non-trivial = a command was executed or a credential check was reached",
     nontrivial=lambda op, out: ("a none" not in out and out.startswith("r ")) or ",0101" in out or ",0100" in out or out in ("pass", "401"),
     trusted_base=[
